@@ -54,8 +54,11 @@ SeqBag(q) == [e \in RangeS(q) |-> CountIn(q, e)]          \* a sequence compared
 
 NoInfo == [ty |-> EB, sh |-> EB, doc |-> EB, meta |-> EB]
 HasInfo(i) == ~BEmpty(i.ty) \/ ~BEmpty(i.sh) \/ ~BEmpty(i.doc) \/ ~BEmpty(i.meta)
-\* deserialize_value_info_proto(proto, value): shape, type, doc string overwritten, metadata merged
-ApplyInfo(old, c) == [ty |-> c.ty, sh |-> c.sh, doc |-> c.doc, meta |-> BMax(old.meta, c.meta)]
+\* deserialize_value_info_proto(proto, value): type and shape replaced when the entry HAS a type (an entry without
+\* one must not erase what the value already has, e.g. what an initializer takes from its tensor - repository
+\* commit 4a46d70, found by this module's fixpoint formula), doc string overwritten, metadata merged
+ApplyInfo(old, c) == [ty |-> IF BEmpty(c.ty) THEN old.ty ELSE c.ty, sh |-> IF BEmpty(c.ty) THEN old.sh ELSE c.sh,
+                      doc |-> c.doc, meta |-> BMax(old.meta, c.meta)]
 
 NoTens == [key |-> "", t |-> EB, doc |-> EB, meta |-> EB]
 \* Value(type=TensorType(tensor.dtype), shape=tensor.shape) of an initializer without value info
